@@ -114,13 +114,17 @@ Definition ct_get (ct : list hitem) (h : N) (key : bytes) : option hitem :=
   find (fun x => (hi_hash x =? h) && bytes_eqb (hi_key x) key) ct.
 Definition ct_has_hash (ct : list hitem) (h : N) : bool := existsb (fun x => hi_hash x =? h) ct.
 
-(* compareAndSet(it, reason): [force] = reason "gc" *)
-Fixpoint ct_cas (ct : list hitem) (it : hitem) (force : bool) : list hitem :=
+(* compareAndSet(it, reason): [force] = reason "gc"; with the repair of finding F22
+   (Consts.gc_collision_update_versioned) a GC relocation does not replace an entry of a newer version *)
+Fixpoint ct_cas_gen (versioned : bool) (ct : list hitem) (it : hitem) (force : bool) : list hitem :=
   match ct with
   | [] => [it]
-  | x :: r => if same_hk x it then (if force || (pos_key x <=? pos_key it) then it else x) :: r
-              else x :: ct_cas r it force
+  | x :: r => if same_hk x it then
+                (if (if force then (if versioned then (Z.abs (hi_ver x) <=? Z.abs (hi_ver it))%Z else true)
+                     else pos_key x <=? pos_key it) then it else x) :: r
+              else x :: ct_cas_gen versioned r it force
   end.
+Definition ct_cas := ct_cas_gen gc_collision_update_versioned.
 
 (* ------------------------------------------------------------- hints *)
 Definition buf_get (l : list hitem) (h : N) (key : bytes) : option hitem :=
